@@ -4,6 +4,8 @@ import AdaptiveModel.Avg
 import AdaptiveProofs.Lemmas.L1DBook
 import AdaptiveProofs.Lemmas.AvgBook
 import AdaptiveProofs.Lemmas.SeqBook
+import AdaptiveProofs.Lemmas.L1DRestore
+import AdaptiveProofs.Lemmas.AvgRestore
 
 /-!
 # C13 — saving, pickling or copying a learner and restoring it loses nothing
@@ -72,5 +74,85 @@ theorem seq_data_roundtrip {β : Type} (n m : Nat) (ops : List (Seq.Op β)) :
     (Seq.setData (Seq.init m) (Seq.getData (Seq.run (Seq.init n) ops))).data = (Seq.run (Seq.init n) ops).data :=
   Seq.setData_getData_run n m ops
 end models
+
+/-! ### restore-bisimilarity: the restored learner behaves like the original FOR EVER AFTER
+
+(helper lemmas: `Lemmas/L1DRestore.lean`, `Lemmas/AvgRestore.lean`).  Learner1D with exact loss recomputation
+(`factor = 1`): `h` is any valid history (`ValidOps`: points inside the bounds, no empty batch on the batch path)
+with values of `d` components that ENDS WITH NO PENDING POINTS; the restored learner is
+`setData fresh (getData (run … h))`, `fresh = init lo hi 1 dxEps nn`.  `Agree` (see `Props/C11.lean`) contains
+equality of the abscissa lists, of both loss tables as lists, of the scales, of `loss real` for both flags and of
+`askPoints r12 · n` for every `n`.  The hypothesis "no pending points" cannot be dropped — the pending set is not
+saved (kernel-checked counterexamples at the end of the two lemma files). -/
+section restore
+open L1D
+variable {α : Type} [Field α] [LinearOrder α] [IsStrictOrderedRing α]
+variable (lossFn : List (Option α) → List (Option (List α)) → Loss α) (r12 : α → α)
+
+/-- C13.r1  The restored learner agrees with the original in every observable: same loss tables, same `loss()`,
+same suggestions `ask(n)` for every `n`. -/
+theorem l1d_restore_agrees {lo hi : α} (hlt : lo < hi) (dxEps : α) (nn d : Nat) (h : List (Op α))
+    (hv : ValidOps lossFn r12 (init lo hi 1 dxEps nn) h) (hd : ∀ op ∈ h, OpDim d op)
+    (hp : (run lossFn r12 (init lo hi 1 dxEps nn) h).pending = []) :
+    Agree lossFn r12 (run lossFn r12 (init lo hi 1 dxEps nn) h)
+      (setData lossFn r12 (init lo hi 1 dxEps nn) (getData (run lossFn r12 (init lo hi 1 dxEps nn) h))) :=
+  restore_agrees lossFn r12 hlt dxEps nn d h hv hd hp
+
+/-- C13.r2  **Bisimilarity.**  For EVERY continuation `t` (asks committing or not, tells, batched tells, pending
+marks, discards) that is valid from the original — it is then valid from the restored learner as well (first
+conjunct; `ValidOp` only reads `lo`, `hi` and the number of stored points) — the two learners `Agree` after `t`:
+they can never be told apart again. -/
+theorem l1d_restore_bisimilar {lo hi : α} (hlt : lo < hi) (dxEps : α) (nn d : Nat) (h : List (Op α))
+    (hv : ValidOps lossFn r12 (init lo hi 1 dxEps nn) h) (hd : ∀ op ∈ h, OpDim d op)
+    (hp : (run lossFn r12 (init lo hi 1 dxEps nn) h).pending = [])
+    (t : List (Op α)) (hvt : ValidOps lossFn r12 (run lossFn r12 (init lo hi 1 dxEps nn) h) t)
+    (hdt : ∀ op ∈ t, OpDim d op) :
+    ValidOps lossFn r12 (setData lossFn r12 (init lo hi 1 dxEps nn)
+      (getData (run lossFn r12 (init lo hi 1 dxEps nn) h))) t ∧
+    Agree lossFn r12 (run lossFn r12 (run lossFn r12 (init lo hi 1 dxEps nn) h) t)
+      (run lossFn r12 (setData lossFn r12 (init lo hi 1 dxEps nn)
+        (getData (run lossFn r12 (init lo hi 1 dxEps nn) h))) t) :=
+  restore_bisimilar lossFn r12 hlt dxEps nn d h hv hd hp t hvt hdt
+
+/-- C13.r3  Same answers to every later `ask` and same reported losses, after every common continuation. -/
+theorem l1d_restore_same_answers {lo hi : α} (hlt : lo < hi) (dxEps : α) (nn d : Nat) (h : List (Op α))
+    (hv : ValidOps lossFn r12 (init lo hi 1 dxEps nn) h) (hd : ∀ op ∈ h, OpDim d op)
+    (hp : (run lossFn r12 (init lo hi 1 dxEps nn) h).pending = [])
+    (t : List (Op α)) (hvt : ValidOps lossFn r12 (run lossFn r12 (init lo hi 1 dxEps nn) h) t)
+    (hdt : ∀ op ∈ t, OpDim d op) :
+    (∀ n, askPoints r12 (run lossFn r12 (run lossFn r12 (init lo hi 1 dxEps nn) h) t) n =
+      askPoints r12 (run lossFn r12 (setData lossFn r12 (init lo hi 1 dxEps nn)
+        (getData (run lossFn r12 (init lo hi 1 dxEps nn) h))) t) n) ∧
+    (∀ real, loss (run lossFn r12 (run lossFn r12 (init lo hi 1 dxEps nn) h) t) real =
+      loss (run lossFn r12 (setData lossFn r12 (init lo hi 1 dxEps nn)
+        (getData (run lossFn r12 (init lo hi 1 dxEps nn) h))) t) real) :=
+  restore_same_answers lossFn r12 hlt dxEps nn d h hv hd hp t hvt hdt
+
+/-- C13.r4  The general principle behind r1–r3 (also WITH pending points): two valid histories from the same
+fresh learner that end with the same content (same results, same set of pending points — `SameContent`) are
+bisimilar: after every common valid continuation the states `Agree`. -/
+theorem l1d_same_content_bisimilar {lo hi : α} (hlt : lo < hi) (dxEps : α) (nn d : Nat)
+    (h₁ h₂ t : List (Op α))
+    (hv₁ : ValidOps lossFn r12 (init lo hi 1 dxEps nn) h₁) (hv₂ : ValidOps lossFn r12 (init lo hi 1 dxEps nn) h₂)
+    (hd₁ : ∀ op ∈ h₁, OpDim d op) (hd₂ : ∀ op ∈ h₂, OpDim d op)
+    (hsc : SameContent (run lossFn r12 (init lo hi 1 dxEps nn) h₁) (run lossFn r12 (init lo hi 1 dxEps nn) h₂))
+    (hvt : ValidOps lossFn r12 (run lossFn r12 (init lo hi 1 dxEps nn) h₁) t) (hdt : ∀ op ∈ t, OpDim d op) :
+    ValidOps lossFn r12 (run lossFn r12 (init lo hi 1 dxEps nn) h₂) t ∧
+    Agree lossFn r12 (run lossFn r12 (run lossFn r12 (init lo hi 1 dxEps nn) h₁) t)
+      (run lossFn r12 (run lossFn r12 (init lo hi 1 dxEps nn) h₂) t) :=
+  bisim_of_same_content lossFn r12 hlt dxEps nn d h₁ h₂ t hv₁ hv₂ hd₁ hd₂ hsc hvt hdt
+
+/-- C13.r5  AverageLearner: for a history that ends with no pending points the restored learner IS the original
+(equal states, also the order of `data`), hence after every common continuation `t` the two are the same state
+and report the same mean / standard deviation / loss and answer every `ask` alike. -/
+theorem avg_restore_bisimilar (sqrt : α → α) (atol rtol : Option α) (m : Nat) (ops : List (Avg.Op α))
+    (hp : (Avg.run (Avg.init atol rtol m) ops).pending = []) (t : List (Avg.Op α)) :
+    let s := Avg.run (Avg.run (Avg.init atol rtol m) ops) t
+    let s' := Avg.run (Avg.setData (Avg.init atol rtol m) (Avg.getData (Avg.run (Avg.init atol rtol m) ops))) t
+    s' = s ∧ Avg.mean s' = Avg.mean s ∧ Avg.std sqrt s' = Avg.std sqrt s ∧
+    (∀ real, Avg.loss sqrt s' real = Avg.loss sqrt s real) ∧
+    (∀ n choice, Avg.askPoints s' n choice = Avg.askPoints s n choice) :=
+  Avg.restore_bisimilar sqrt atol rtol m ops hp t
+end restore
 
 end C13
